@@ -14,7 +14,7 @@ TRUST = ("Trusted base: rustc's type checker, borrow checker, trait resolution, 
 CHECKS = {
     "C13": {
         "technique": "MIR abstract interpretation (pointer base/offset/extent) + delegation rule with recognised equivalent forms (slice impl, Iterator::cmp/partial_cmp/eq on the two full iterators, written-out Debug body, lexicographic loop)",
-        "text": "Static analysis of the type-checked program: each of eq/partial_cmp/cmp/hash/Debug::fmt is shown to be a pure delegation to the same trait method of [T] on the full N-element views of its operands in parameter order, result returned unchanged; Borrow/BorrowMut/AsRef/AsMut<[T]> are shown to return that same view; the view constructors are shown to be (address of self, N). This holds for every T and N because the polymorphic MIR is analysed with N symbolic. It decides that the impls ARE the slice impls; what the slice impls compute is std's.",
+        "text": "Static analysis of the type-checked program: each of eq/partial_cmp/cmp/hash/Debug::fmt is shown to be a pure delegation to the same trait method of [T] on the full N-element views of its operands in parameter order, result returned unchanged; Borrow/BorrowMut/AsRef/AsMut<[T]> are shown to return that same view; the view constructors are shown to be (address of self, N). This holds for every T and N because the polymorphic MIR is analysed with N symbolic. It decides that the impls ARE the slice impls; what the slice impls compute is std's. Every other method the comparison impls override (lt / le / gt / ge, ne ..) is held to the same delegation rule with its own method name.",
         "design_ref": "DESIGN.md §3 C13",
         "note": TRUST + " Formatted strings / orderings themselves are those of core's [T] impls.",
     },
@@ -22,7 +22,7 @@ CHECKS = {
 
 CHECKS["C02"] = {
     "technique": "MIR abstract interpretation on fully expanded, tree-shaped bodies: per-path postconditions (success exit = source address with source extent == target extent; rejecting exits only under len != N) + delegation, signature-region and aggregate-position rules",
-    "text": "Static analysis of the polymorphic MIR (length N symbolic, so the verdict covers every N and T): the view constructors return (address of self, N elements); at each slice-to-array reborrow the dominating branch facts prove len == N exactly (a `<`/`>`/`>=` guard is reported, and so is a comparison of values cast to a narrower integer type or with typenum's narrow constants such as N::U32 - truncated quantities say nothing about the length), the rejecting exits are reached only under len != N, and the success value is the source pointer itself; [T; U] conversions have equal symbolic sizes under the Const<U>: IntoArrayLength<ArrayLength = N> clause; the trait forms delegate to those; the 24 tuple impls keep operand i at position i; every returned reference's region and mutability is tied to its source parameter. A sweep applies the exact-extent rule to any other slice-derived reborrow in the crate. C02.M: the same write-permission rule for the mutable views.",
+    "text": "Static analysis of the polymorphic MIR (length N symbolic, so the verdict covers every N and T): the view constructors return (address of self, N elements); at each slice-to-array reborrow the dominating branch facts prove len == N exactly (a `<`/`>`/`>=` guard is reported, and so is a comparison of values cast to a narrower integer type or with typenum's narrow constants such as N::U32 - truncated quantities say nothing about the length), the rejecting exits are reached only under len != N, and the success value is the source pointer itself; [T; U] conversions have equal symbolic sizes under the Const<U>: IntoArrayLength<ArrayLength = N> clause; the trait forms delegate to those; the 24 tuple impls keep operand i at position i; every returned reference's region and mutability is tied to its source parameter. A sweep applies the exact-extent rule to any other slice-derived reborrow in the crate. C02.M: the same write-permission rule for the mutable views. The fallible forms have no panicking exit: no explicit panic or compiler-inserted check that can fail, no std call whose panic condition (split_at: mid <= len, unwrap: the right variant ..) is not excluded.",
     "design_ref": "DESIGN.md §3 C02",
     "note": TRUST + " 'A write through one view is seen through all others' is entailed by same address + same extent and is not separately observed.",
 }
@@ -61,7 +61,7 @@ CHECKS["C03"] = {
 }
 CHECKS["C04"] = {
     "technique": "unwind-window typestate over MIR: ownership state at every call that can run caller code inside each element-moving step (closure or loop); owner liveness on unwind edges through drop flags; foreign-call classification from resolved callees",
-    "text": "Static typestate analysis: every call terminator that can run caller-supplied code (closure calls, Clone/Default/Iterator::next/SeqAccess on generic types, generic drops, and crate functions that transitively contain one) is visited with the abstract ownership state at that point - in consumer closures every ptr::read-duplicated element has already been excluded from its owner, in builder closures/loops a written slot is already counted and never counted before written; each position is a field of a tracked owner whose storage the slots iterate, and drop elaboration drops that owner on the unwind path of the driving call (followed through drop flags); raw element writes outside closures are counted by a live owner before any later foreign call; helper-function models are verified against the helpers' bodies. This quantifies over every panic point because unwind edges are explicit in MIR; no panic is injected. It found the GenericArrayIter::clone leak (fixed, see known_findings.json). C04.Y: the same duplicate-window rule for raw reads outside protocol closures and pipeline loops (hand-written index loops in methods of an owner). C04.D: values that are not elements (an accumulator threaded through the caller's closure): a bitwise copy read out of a plain local - the function's own or the enclosing function's through a closure upvar - must be written back before any call that can run caller code unless drop elaboration does not release that local on the unwind path (no instance on the reviewed tree; positive fixture with a ManuallyDrop twin on every run).",
+    "text": "Static typestate analysis: every call terminator that can run caller-supplied code (closure calls, Clone/Default/Iterator::next/SeqAccess on generic types, generic drops, and crate functions that transitively contain one) is visited with the abstract ownership state at that point - in consumer closures every ptr::read-duplicated element has already been excluded from its owner, in builder closures/loops a written slot is already counted and never counted before written; each position is a field of a tracked owner whose storage the slots iterate, and drop elaboration drops that owner on the unwind path of the driving call (followed through drop flags); raw element writes outside closures are counted by a live owner before any later foreign call; helper-function models are verified against the helpers' bodies. This quantifies over every panic point because unwind edges are explicit in MIR; no panic is injected. It found the GenericArrayIter::clone leak (fixed, see known_findings.json). C04.Y: the same duplicate-window rule for raw reads outside protocol closures and pipeline loops (hand-written index loops in methods of an owner). C04.D: values that are not elements (an accumulator threaded through the caller's closure): a bitwise copy read out of a plain local - the function's own or the enclosing function's through a closure upvar - must be written back before any call that can run caller code unless drop elaboration does not release that local on the unwind path (no instance on the reviewed tree; positive fixture with a ManuallyDrop twin on every run). C04.O also requires that the end of a consumer's claimed range that moves fits the direction of travel (low position +1 going forward, high position -1 going backward), and C04.P that every step ends in balance (stored iff counted, read iff advanced).",
     "design_ref": "DESIGN.md §3 C04",
     "note": TRUST + " Overflow checks on positions are not treated as foreign code; a panic while dropping the caller's closure object itself is outside the property's quantifier.",
 }
@@ -81,7 +81,7 @@ CHECKS["C06"] = {
 
 CHECKS["C07"] = {
     "technique": "per-path guard facts at every Ok / Err construction and every poll of the source (tree-shaped bodies, helpers expanded) + fill rule on the body with the builder's extend expanded (Zip receiver order, take(N)) + owner liveness",
-    "text": "Static analysis of try_from_iter / try_boxed_from_iter / extend / from_iter: the Ok value is constructed only under the facts `destination full (position == N, resp. vec.len() == N)` AND `the one extra poll returned None`; every early Err is reached only under size_hint lower > N or upper < N (so truthful hints never cause a spurious Err); the source is polled again only when the destination is full (never after it returned None; at most N + 1 polls given the fill shape); the fill is destination.zip(source).for_each(builder closure) with the destination as Zip's receiver over the whole array and the source handed over by &mut, the boxed form goes through take(N) into Vec::with_capacity(N); the builder is a live tracked owner on the unwind path of every foreign call; from_iter = try_* + from_iter_length_fail(N). Holds for every N and every source because the source is an opaque generic iterator in the analysed MIR. The fill counts each stored item in the builder's own position field (the one its Drop reads), so items pulled before a panic of the source are owned.",
+    "text": "Static analysis of try_from_iter / try_boxed_from_iter / extend / from_iter: the Ok value is constructed only under the facts `destination full (position == N, resp. vec.len() == N)` AND `the one extra poll returned None`; every early Err is reached only under size_hint lower > N or upper < N (so truthful hints never cause a spurious Err); the source is polled again only when the destination is full (never after it returned None; at most N + 1 polls given the fill shape); the fill is destination.zip(source).for_each(builder closure) with the destination as Zip's receiver over the whole array and the source handed over by &mut, the boxed form goes through take(N) into Vec::with_capacity(N); the builder is a live tracked owner on the unwind path of every foreign call; from_iter = try_* + from_iter_length_fail(N). Holds for every N and every source because the source is an opaque generic iterator in the analysed MIR. The fill counts each stored item in the builder's own position field (the one its Drop reads), so items pulled before a panic of the source are owned. C07.N: the fallible constructors answer a wrong count with Err and have no panicking exit of their own (explicit panics and std calls whose panic condition is not excluded, on the fully expanded tree-shaped body, in the configuration without debug assertions).",
     "design_ref": "DESIGN.md §3 C07",
     "note": TRUST + " Zip::next polling order and Take are std semantics; the panic message text is not checked.",
 }
@@ -94,7 +94,7 @@ CHECKS["C08"] = {
 
 CHECKS["C12"] = {
     "technique": "compile-fail witnesses in accept/reject twins (rustc as oracle) + universal item-fact rules on unsafe auto-trait impls, Copy/Clone bounds, sealedness and signature regions",
-    "text": "The oracle is the compiler: a generated corpus of minimal programs in accept/reject twins differing in exactly one length, bound or lifetime (quick: ~140 twins on nightly; thorough: all tuple arities, nightly + stable) is type-checked against the working tree's library - zip in all nine stack receiver x argument forms + boxed, comparisons, split, pop/remove on empty, lengthen/concat/shorten annotations, native-array/tuple conversions, flatten/unflatten, chunk reinterpretation, arr!/box_arr!, ConstArrayLength, Send/Sync/Copy/Clone of arrays and iterators, sealedness, and for every reference-returning API: view of a local, & -> &mut upgrade, 'static upgrade, two live &mut views; every accept twin must compile (so a reject cannot pass for a wrong path) and every reject twin must fail with a code of its expected class. Universal rules on the type-checked crate: each unsafe impl Send/Sync bounds every element parameter by the same auto trait; Copy for the array implies T: Copy by induction over the storage impls; Clone requires T: Clone; the iterator has no hand-written auto-trait impl; ArrayLength is sealed; every function that manufactures a reference from a raw pointer / from_raw_parts / a reference transmute ties each returned region and &mut-ness to an input.",
+    "text": "The oracle is the compiler: a generated corpus of minimal programs in accept/reject twins differing in exactly one length, bound or lifetime (quick: ~140 twins on nightly; thorough: all tuple arities, nightly + stable) is type-checked against the working tree's library - zip in all nine stack receiver x argument forms + boxed, comparisons, split, pop/remove on empty, lengthen/concat/shorten annotations, native-array/tuple conversions, flatten/unflatten, chunk reinterpretation, arr!/box_arr!, ConstArrayLength, Send/Sync/Copy/Clone of arrays and iterators, sealedness, and for every reference-returning API: view of a local, & -> &mut upgrade, 'static upgrade, two live &mut views; every accept twin must compile (so a reject cannot pass for a wrong path) and every reject twin must fail with a code of its expected class. Universal rules on the type-checked crate: each unsafe impl Send/Sync bounds every element parameter by the same auto trait; Copy for the array implies T: Copy by induction over the storage impls; Clone requires T: Clone; the iterator has no hand-written auto-trait impl; ArrayLength is sealed; every function that manufactures a reference from a raw pointer / from_raw_parts / a reference transmute ties each returned region and &mut-ness to an input. C12.E: every impl of a comparison trait that relates two GenericArray types - however wrapped (references, Box) - uses one and the same length term on both sides (universal over the crate's impls).",
     "design_ref": "DESIGN.md §3 C12",
     "note": "Trusted: rustc's type checker, trait solver and borrow checker. Programs outside the corpus are covered only by the universal rules.",
 }
@@ -108,7 +108,7 @@ CHECKS["C14"] = {
 
 CHECKS["C15"] = {
     "technique": "guard-fact dominance at the Box pointer cast, raw hand-over provenance + symbolic layout equality, callee-set (no allocation/copy) rule, by-value-type inventory of every frame of the boxed constructors",
-    "text": "Static analysis of the alloc feature: the Box<[T]> -> Box<GenericArray<T,N>> cast is reached only under len == N and LengthError only under len != N with the source still an ordinary owner; TryFrom<Vec> fills through extend only under len == N; the O(1) conversions are a raw round trip of the same pointer at offset 0 with length exactly N, equal symbolic layouts, and bodies free of allocating/copying callees and loops; into_vec/try_from_vec/TryFrom<Box<[T]>>/From for Vec and Box<[T]> are the documented delegation chains; in every boxed constructor (boxed generate + closure, default_boxed, try_boxed_from_iter, boxed from_iter, __from_vec_helper, try_from_vec, try_from_boxed_slice, into_boxed_slice, into_vec, Box IntoIterator) and their crate-local callees no local/temporary/argument/return place has a by-value type containing a GenericArray, so no stack frame of the crate ever holds the array. PARTIAL: allocator call counts, block addresses and actual stack consumption are run-time observations and are not claimed.",
+    "text": "Static analysis of the alloc feature: the Box<[T]> -> Box<GenericArray<T,N>> cast is reached only under len == N and LengthError only under len != N with the source still an ordinary owner; TryFrom<Vec> fills through extend only under len == N; the O(1) conversions are a raw round trip of the same pointer at offset 0 with length exactly N, equal symbolic layouts, and bodies free of allocating/copying callees and loops; into_vec/try_from_vec/TryFrom<Box<[T]>>/From for Vec and Box<[T]> are the documented delegation chains; in every boxed constructor (boxed generate + closure, default_boxed, try_boxed_from_iter, boxed from_iter, __from_vec_helper, try_from_vec, try_from_boxed_slice, into_boxed_slice, into_vec, Box IntoIterator) and their crate-local callees no local/temporary/argument/return place has a by-value type containing a GenericArray, so no stack frame of the crate ever holds the array. PARTIAL: allocator call counts, block addresses and actual stack consumption are run-time observations and are not claimed. C15.N: try_from_vec / try_from_boxed_slice have no panicking exit (same rule as C07.N).",
     "design_ref": "DESIGN.md §3 C15",
     "note": TRUST + " Vec::from(Box<[T]>) / Vec::into_boxed_slice allocation reuse is std's documented behaviour.",
 }
